@@ -23,7 +23,7 @@ STACK_COLS = ["parent", "depth", "height", "num_kernels", "kernel_dur_sum", "ker
               "first_kernel_start", "last_kernel_end"]
 
 OPS: Dict[str, Callable[..., Any]] = {}
-NO_TRACE_NEEDED = {"load", "discover", "noop", "symtab_history", "write_trace", "update_rank", "read_trace", "disk"}
+NO_TRACE_NEEDED = {"load", "discover", "noop", "symtab_history", "write_trace", "update_rank", "read_trace", "disk", "replace_source"}
 
 
 def op(name: str):
